@@ -25,12 +25,14 @@ import (
 type verifC19KeepRecorder struct {
 	mtx   sync.Mutex
 	auths [][]string
+	hosts []string
 	dumps []string
 }
 
 func (rec *verifC19KeepRecorder) Do(req *http.Request) (*http.Response, error) {
 	rec.mtx.Lock()
 	rec.auths = append(rec.auths, req.Header["Authorization"])
+	rec.hosts = append(rec.hosts, req.URL.Host)
 	rec.dumps = append(rec.dumps, verifc19.Dump(req, nil))
 	rec.mtx.Unlock()
 	return &http.Response{
@@ -39,19 +41,124 @@ func (rec *verifC19KeepRecorder) Do(req *http.Request) (*http.Response, error) {
 	}, nil
 }
 
-func verifC19Proxy(remote string) (*remoteProxy, *verifC19KeepRecorder) {
+// one remoteProxy with a pre-populated keep client per remote cluster; the keep services of remote
+// number i are keep0.r<i>.example and keep1.r<i>.example, all requests go to one recorder
+func verifC19Proxy(remotes ...string) (*remoteProxy, *verifC19KeepRecorder) {
 	rec := &verifC19KeepRecorder{}
-	kc := &keepclient.KeepClient{
-		Arvados:    &arvadosclient.ArvadosClient{ApiToken: "xxx"},
-		HTTPClient: rec,
+	rp := &remoteProxy{clients: map[string]*keepclient.KeepClient{}}
+	for i, remote := range remotes {
+		if _, ok := rp.clients[remote]; ok {
+			continue
+		}
+		kc := &keepclient.KeepClient{
+			Arvados:    &arvadosclient.ArvadosClient{ApiToken: "xxx"},
+			HTTPClient: rec,
+		}
+		roots := map[string]string{
+			"zrmte-bi6l4-000000000000000": "http://keep0.r" + strconv.Itoa(i) + ".example",
+			"zrmte-bi6l4-000000000000001": "http://keep1.r" + strconv.Itoa(i) + ".example",
+		}
+		kc.SetServiceRoots(roots, roots, nil)
+		rp.clients[remote] = kc
 	}
-	roots := map[string]string{"zrmte-bi6l4-000000000000000": "http://keep0.remote.example", "zrmte-bi6l4-000000000000001": "http://keep1.remote.example"}
-	kc.SetServiceRoots(roots, roots, nil)
-	return &remoteProxy{clients: map[string]*keepclient.KeepClient{remote: kc}}, rec
+	return rp, rec
+}
+
+type verifC19Step struct {
+	remotes []string
+	token   string
+}
+
+func verifC19Steps(spec string) (steps []verifC19Step, all []string) {
+	for _, it := range strings.Split(spec, ";") {
+		p := strings.SplitN(it, ":", 2)
+		var st verifC19Step
+		for _, r := range strings.Split(p[0], "+") {
+			st.remotes = append(st.remotes, verifc19.Unhex(r))
+		}
+		st.token = verifc19.Unhex(p[1])
+		steps = append(steps, st)
+		all = append(all, st.remotes...)
+	}
+	return
+}
+
+func verifC19SaltErr(err error) string {
+	switch err {
+	case auth.ErrSalted:
+		return "err-salted"
+	case auth.ErrObsoleteToken:
+		return "err-obsolete"
+	case auth.ErrTokenFormat:
+		return "err-format"
+	}
+	return "err-other"
+}
+
+// sequences on ONE remoteProxy
+func verifC19Seq(op, spec string) string {
+	steps, all := verifC19Steps(spec)
+	rp, rec := verifC19Proxy(all...)
+	index := map[string]int{} // remote -> number used in the keep service host names
+	for i, r := range all {
+		if _, ok := index[r]; !ok {
+			index[r] = i
+		}
+	}
+	cluster := &arvados.Cluster{RemoteClusters: map[string]arvados.RemoteCluster{}}
+	for _, r := range all {
+		cluster.RemoteClusters[r] = arvados.RemoteCluster{Host: "remote.example"}
+	}
+	var out []string
+	for _, st := range steps {
+		if op == "keepseq" {
+			kc, err := rp.remoteClient(st.remotes[0], arvados.RemoteCluster{Host: "remote.example"}, st.token)
+			if err != nil {
+				out = append(out, verifC19SaltErr(err))
+			} else {
+				out = append(out, "ok-"+verifc19.Hex(kc.Arvados.ApiToken))
+			}
+			continue
+		}
+		path := "/acbd18db4cc2f85cedef654fccc4a4d8+3"
+		for _, r := range st.remotes {
+			path += "+R" + r + "-0123456789abcdef0123456789abcdef01234567@5f000000"
+		}
+		req := httptest.NewRequest("GET", path, nil)
+		req.Header["Authorization"] = []string{"OAuth2 " + st.token}
+		w := httptest.NewRecorder()
+		n0 := len(rec.auths)
+		rp.Get(context.Background(), w, req, cluster, nil)
+		if len(rec.auths) == n0 {
+			out = append(out, "refused-"+strconv.Itoa(w.Code))
+			continue
+		}
+		// distinct (destination remote, Authorization) pairs of this step
+		var pairs []string
+		seen := map[string]bool{}
+		for i := n0; i < len(rec.auths); i++ {
+			dest := "unknown-host-" + rec.hosts[i]
+			for r, n := range index {
+				if strings.HasSuffix(rec.hosts[i], ".r"+strconv.Itoa(n)+".example") {
+					dest = verifc19.Hex(r)
+				}
+			}
+			p := "sent-" + verifc19.HexList(rec.auths[i]) + "@" + dest
+			if !seen[p] {
+				seen[p] = true
+				pairs = append(pairs, p)
+			}
+		}
+		out = append(out, strings.Join(pairs, "|"))
+	}
+	return strings.Join(out, ";")
 }
 
 func verifC19Case(line string) string {
 	f := strings.Split(line, " ")
+	if len(f) == 2 && (f[0] == "keepseq" || f[0] == "keepgetseq") {
+		return verifC19Seq(f[0], f[1])
+	}
 	if len(f) != 3 {
 		return "bad-op"
 	}
